@@ -11,6 +11,8 @@ from ..refs import ConvexRef, maxerr
 
 PROPERTY = "C01"
 ENGINE = "E2"
+TECHNIQUE = "bounded-exhaustive input enumeration (lattice hull orbits x placement group x vertex orders) vs exact integer-arithmetic integrals"
+LEVEL_TEXT = "Every convex lattice configuration up to the stated size, every tabulated solid and a deterministic ellipsoid family are executed in every listed placement and vertex order; each reported measure is decided against exact integrals of the same floats. Silence = no counterexample inside the enumerated space."
 RULE = (
     "cases = (vertex set from S3(k) lattice orbits | FAM tabulated+generated solids | ELL points on ellipsoids) x placement "
     "(rotation, scale, shift) x vertex order x anisotropic stretch, enumerated completely; each case constructs the real "
